@@ -77,6 +77,9 @@ func (am *Machine) handleStateDkgCommitsAwaitConfirmations(o *client.Operation) 
 
 	pid := -1
 	for _, r := range payload {
+		if r == nil {
+			return fmt.Errorf("payload contains a nil entry")
+		}
 		pubkey := am.baseSuite.Point()
 		if err := pubkey.UnmarshalBinary(r.DkgPubKey); err != nil {
 			return fmt.Errorf("failed to unmarshal dkg pubkey: %w", err)
@@ -106,6 +109,9 @@ func (am *Machine) handleStateDkgCommitsAwaitConfirmations(o *client.Operation) 
 	dkgInstance.N = len(payload)
 
 	for _, entry := range payload {
+		if entry == nil {
+			return fmt.Errorf("payload contains a nil entry")
+		}
 		pubKey := am.baseSuite.Point()
 		if err = pubKey.UnmarshalBinary(entry.DkgPubKey); err != nil {
 			return fmt.Errorf("failed to unmarshal pubkey: %w", err)
@@ -167,6 +173,9 @@ func (am *Machine) handleStateDkgDealsAwaitConfirmations(o *client.Operation) er
 	}
 
 	for _, entry := range payload {
+		if entry == nil {
+			return fmt.Errorf("payload contains a nil entry")
+		}
 		var commitsBz [][]byte
 		if err = json.Unmarshal(entry.DkgCommit, &commitsBz); err != nil {
 			return fmt.Errorf("failed to unmarshal commits: %w", err)
@@ -249,6 +258,9 @@ func (am *Machine) handleStateDkgResponsesAwaitConfirmations(o *client.Operation
 	}
 
 	for _, entry := range payload {
+		if entry == nil {
+			return fmt.Errorf("payload contains a nil entry")
+		}
 		//do not store deals from ourselves because of the hack above
 		if entry.ParticipantId == dkgInstance.ParticipantID {
 			continue
@@ -260,6 +272,9 @@ func (am *Machine) handleStateDkgResponsesAwaitConfirmations(o *client.Operation
 		var deal dkgPedersen.Deal
 		if err = json.Unmarshal(decryptedDealBz, &deal); err != nil {
 			return fmt.Errorf("failed to unmarshal deal")
+		}
+		if deal.Deal == nil {
+			return fmt.Errorf("deal from %s has no encrypted part", entry.Username)
 		}
 		dkgInstance.StoreDeal(entry.Username, &deal)
 	}
@@ -310,6 +325,9 @@ func (am *Machine) handleStateDkgMasterKeyAwaitConfirmations(o *client.Operation
 	}
 
 	for _, entry := range payload {
+		if entry == nil {
+			return fmt.Errorf("payload contains a nil entry")
+		}
 		var entryResponses []*dkgPedersen.Response
 		if err = json.Unmarshal(entry.DkgResponse, &entryResponses); err != nil {
 			return fmt.Errorf("failed to unmarshal responses: %w", err)
